@@ -10,12 +10,15 @@ PROPERTY_ID = "C25"
 LEVEL = "exploration"
 RULE = (
     "hist/hist-enum: one-thread command lists (dispose / read is_disposed / run the virtual scheduler) on Disposable(action) "
-    "[action = counting, None, or re-entrant: the action calls dispose() again], BooleanDisposable, and ScheduledDisposable "
-    "wrapping a counting item ('plain' or a falsy empty CompositeDisposable) on a TestScheduler or the ImmediateScheduler; "
+    "[action = counting, None, re-entrant (the action calls dispose() again) or raising (raises after counting; the history "
+    "catches it and goes on)], BooleanDisposable, and ScheduledDisposable wrapping a counting item ('plain', a falsy empty "
+    "CompositeDisposable, 'reenter' = its dispose() disposes the wrapper again, 'raises' = its dispose() raises after counting) "
+    "on a TestScheduler or the ImmediateScheduler; "
     "generated (<=20 commands) and exhaustively enumerated (<=6 commands). Oracle after EVERY command: action count == "
     "min(1, #dispose) ; is_disposed is True after any dispose(); BooleanDisposable changes nothing but its flag; the wrapped "
     "resource of a ScheduledDisposable has dispose count 0 until its scheduler ran after a dispose(), then exactly 1, and was "
-    "disposed from inside a scheduler action. "
+    "disposed from inside a scheduler action, and never twice whatever re-enters or raises (after a raise only 'at most once' "
+    "and the count are judged, is_disposed only after a dispose() that returned). "
     "det-enum/det-gen: 2-3 logical threads each calling dispose() 1-3 times on one shared object under Engine DET "
     "(vlib/det.py; line-level yield points, optionally per-bytecode in Disposable.dispose); det-enum explores every schedule "
     "with <=2 (two threads) / <=1 (three threads) preemptions in quick and <=3 / <=2 in thorough; det-gen draws the shape and "
@@ -40,7 +43,7 @@ def _hist_cases():
     disposable = st.fixed_dictionaries(
         {
             "cls": st.just("disposable"),
-            "action": st.sampled_from(["plain", "none", "reentrant"]),
+            "action": st.sampled_from(["plain", "none", "reentrant", "raises"]),
             "cmds": st.lists(st.sampled_from([["dispose"], ["dispose"], ["read"]]), min_size=1, max_size=20),
         }
     )
@@ -48,7 +51,7 @@ def _hist_cases():
     scheduled = st.fixed_dictionaries(
         {
             "cls": st.just("scheduled"),
-            "item": _kind,
+            "item": st.sampled_from(disp.HIST_KINDS),
             "on": st.sampled_from(["virtual", "virtual", "immediate"]),
             "cmds": st.lists(st.one_of(st.just(["dispose"]), st.tuples(st.just("run"), st.integers(1, 3)).map(list)), min_size=1, max_size=20),
         }
@@ -58,13 +61,13 @@ def _hist_cases():
 
 def _hist_enum(tier):
     n = 6 if tier == "quick" else 8
-    for action in ("plain", "none", "reentrant"):
+    for action in ("plain", "none", "reentrant", "raises"):
         for cmds in disp.sequences([("dispose",), ("read",)], n):
             yield {"cls": "disposable", "action": action, "cmds": cmds}
     for cmds in disp.sequences([("dispose",), ("read",)], n):
         yield {"cls": "boolean", "cmds": cmds}
     for on in ("virtual", "immediate"):
-        for kind in disp.KINDS:
+        for kind in disp.HIST_KINDS:
             for cmds in disp.sequences([("dispose",), ("run", 1)], n):
                 yield {"cls": "scheduled", "item": kind, "on": on, "cmds": cmds}
 
